@@ -223,6 +223,9 @@ def goodbye(ctx: Any) -> List[Ob]:
         if 'SUSPEND' in kinds and 'SNAPSHOT' not in kinds[len(kinds) - kinds[::-1].index('SUSPEND'):]:
             bad_paths.append(' -> '.join(str(n.line) for n, _ in path if n.line))
     obs.append(ob(R, ua, 'generate_unregister_all_services() ... await ... return', 'on every path the registry is examined again after the last suspension (a service registered while the goodbyes were being sent is withdrawn too)', n_paths > 0 and not bad_paths, 'path through lines ' + bad_paths[0] if bad_paths else ''))
+    from .c08 import closing_goodbye_obligation
+
+    obs.append(closing_goodbye_obligation(ctx, R))
     gcfg = cfg_of(g.node)
     un = gcfg.nodes_calling('async_unregister_all_services')
     cl = gcfg.nodes_calling('_async_close')
@@ -392,6 +395,27 @@ def _assign_parent(f: FuncInfo, call: ast.Call) -> Optional[ast.AST]:
     return None
 
 
+def lookup_listener_obligations(ctx: Any, R: str) -> List[Ob]:
+    """A lookup removes its record listener on every exit, and does so at once (the loop-side removal, not the thread-safe
+    one that only schedules the removal for a later iteration -- by then a retry on the same object may have re-registered)."""
+    prog = ctx.prog
+    f = prog.func('zeroconf._services.info.ServiceInfo.async_request')
+    c = cfg_of(f.node)
+    adds = c.nodes_calling('async_add_listener')
+    if not adds:
+        raise AnalysisError('anchor vanished: async_add_listener in async_request')
+    rem = lambda n: any(call_name(x) == 'async_remove_listener' for x in n.calls())  # noqa: E731
+    obs: List[Ob] = []
+    for a in adds:
+        w = c.path_avoiding(a, lambda n: n in (c.exit, c.raise_exit), rem, follow_exc=True)
+        obs.append(ob(R, f, a.ast, 'the lookup listener is removed on every exit, normal or exceptional', w is None, '', [x.text() for x in w] if w else None))
+    zc = prog.cls('zeroconf._core.Zeroconf')
+    deferred_removers = [m.name for m in zc.methods.values() if 'remove_listener' in m.name and any(isinstance(x, ast.Call) and call_name(x) in ('call_soon_threadsafe', 'call_soon', 'run_coroutine_threadsafe') for x in walk_local_ordered(m.node))]
+    late = [x for x in walk_local_ordered(f.node) if isinstance(x, ast.Call) and call_name(x) in deferred_removers]
+    obs.append(ob(R, f, late[0] if late else 'zc.async_remove_listener(self)', 'the removal happens before the lookup returns (not scheduled for a later loop iteration)', not late, f'`{norm(late[0])}` only schedules the removal' if late else ''))
+    return obs
+
+
 @rule('C17.LISTENER', 'D', expect_min=6)
 def listener(ctx: Any) -> List[Ob]:
     """Pairing: a lookup removes its record listener on every exit (finally);
@@ -401,21 +425,17 @@ def listener(ctx: Any) -> List[Ob]:
     R = 'C17.LISTENER'
     prog = ctx.prog
     obs: List[Ob] = []
-    f = prog.func('zeroconf._services.info.ServiceInfo.async_request')
-    c = cfg_of(f.node)
-    adds = c.nodes_calling('async_add_listener')
-    if not adds:
-        raise AnalysisError('anchor vanished: async_add_listener in async_request')
-    rem = lambda n: any(call_name(x) == 'async_remove_listener' for x in n.calls())  # noqa: E731
-    for a in adds:
-        w = c.path_avoiding(a, lambda n: n in (c.exit, c.raise_exit), rem, follow_exc=True)
-        obs.append(ob(R, f, a.ast, 'the lookup listener is removed on every exit, normal or exceptional', w is None, '', [x.text() for x in w] if w else None))
+    obs.extend(lookup_listener_obligations(ctx, R))
     # also: an exception in the very statement that adds must not leak a half-added listener: add is inside the try
     g = prog.func('zeroconf._services.browser._ServiceBrowserBase._async_cancel')
     cg_ = cfg_of(g.node)
     for nm, what in (('stop', 'stops the query scheduler'), ('async_remove_listener', 'removes its record listener'), ('cancel', 'cancels its start-up task')):
         w = cg_.must_pass_before_exit(cg_.entry, lambda n, nm=nm: any(call_name(x) == nm for x in n.calls()))
         obs.append(ob(R, g, f'.{nm}()', f'cancelling a browser {what} on every path', w is None, '', [x.text() for x in w] if w else None))
+    tb = prog.func('zeroconf._services.browser.ServiceBrowser.cancel')
+    tcfg = cfg_of(tb.node)
+    wj = tcfg.must_pass_before_exit(tcfg.entry, lambda n: any(call_name(x) == 'join' and isinstance(x.func, ast.Attribute) and self_attr(x.func, tb.params[0]) for x in n.calls()))
+    obs.append(ob(R, tb, 'self.queue.put(None); ...; self.join()', 'cancelling a threaded browser waits for its dispatch thread on every path, so no queued callback runs after the cancel (and the close) has returned', wj is None, 'a path returns without joining the dispatch thread' if wj is not None else ''))
     st = prog.func('zeroconf._services.browser.QueryScheduler.stop')
     me = st.params[0]
     atoms_none = {}
